@@ -223,7 +223,12 @@ SrcWriteTo(t, w, ok) ==
        /\ Len(t) > 0 => (ok <=> n = Len(t))               \* an empty source may report failure (no iterator)
        /\ wr' = [wr EXCEPT ![w].t = old \o SubSeq(t, 1, n)]
 SrcWriteOn(t, w, ok) == SrcWriteTo(t, w, ok) /\ UNCHANGED <<disk, rd, us, mg, so, fs, it, pl, judge>>
-SrcWrite(src, w, ok) == SrcWriteOn(StripN(Content(src).t), w, ok)
+\* a source that presents equal keys in an order nobody promised (no merge function, no dupsort): which of the equal
+\* entries reaches the writer first is free, so the file is not judged
+SrcWriteFree(w) == /\ w \in DOMAIN wr /\ wr' = [wr EXCEPT ![w].sorted = FALSE]
+                   /\ UNCHANGED <<disk, rd, us, mg, so, fs, it, pl, judge>>
+SrcWriteC(c, w, ok) == IF c.ord \/ Strict(c.t) THEN SrcWriteOn(StripN(c.t), w, ok) ELSE SrcWriteFree(w)
+SrcWrite(src, w, ok) == SrcWriteC(Content(src), w, ok)
 \* ------------------------------------------------------------------ sorter (C06)
 \* so[s] = [adds, merge, failtok, iterating, maxmem, tmpdir, pool, buf (payload bytes buffered since the last spill)]
 SInit(s, maxmem, tmpdir, merge, failtok, pool) ==
